@@ -159,10 +159,83 @@ class FnEnvFlow:
                             src = self._call_behind(y)
                         if d[0] == "call":
                             src = (callee_name(d[3]) or "").rsplit("::", 1)[1]
-                    out[p["l"]]["created"].add(("result-of", src, bb))
+                    summ = self._helper_env_summary(x["l"], bb)
+                    if summ is not None:
+                        out[p["l"]]["created"].add(("summary", summ, bb))
+                    else:
+                        out[p["l"]]["created"].add(("result-of", src, bb))
                 elif bt["k"] == "adt" and bt["d"] == ENV:
                     out[p["l"]]["created"].add(("move", ("local", x["l"]), bb))
         return out
+
+    def _call_term_behind(self, l, depth=0):
+        """the call terminator whose result (through `?`) the local holds"""
+        if depth > 6:
+            return None
+        for d in self.P.defs.get(l, []):
+            if d[0] == "call":
+                n = callee_name(d[3]) or ""
+                if n.endswith("Try>::branch") and d[3]["xs"] and d[3]["xs"][0]["k"] in ("copy", "move"):
+                    return self._call_term_behind(d[3]["xs"][0]["l"], depth + 1)
+                return d[3]
+            if d[0] == "assign" and d[3]["rv"]["k"] == "use" and d[3]["rv"]["x"]["k"] in ("copy", "move"):
+                return self._call_term_behind(d[3]["rv"]["x"]["l"], depth + 1)
+        return None
+
+    def _helper_env_summary(self, l, bb, depth=0):
+        """the environment a helper that did not exist on the reference tree hands back, described in the caller's terms"""
+        t = self._call_term_behind(l)
+        if t is None or depth > 2:
+            return None
+        q = t["f"].get("r") or callee_name(t) or ""
+        if not q or q.rsplit("::", 1)[-1] in ANALYZE or not self.F.is_new_fn(q):
+            return None
+        g = self.F.fn_opt(q)
+        if g is None or g.body is None:
+            return None
+        sub = FnEnvFlow(self.F, g)
+        envs = sub.env_locals()
+        # the Env local that is returned: moved into the return place (directly or inside Ok / a tuple)
+        ret = None
+        for b2, si, st in g.body.assigns():
+            if st["p"]["l"] == 0:
+                rv = st["rv"]
+                ops = [rv["x"]] if rv["k"] == "use" else (rv["xs"] if rv["k"] == "agg" else [])
+                for x in ops:
+                    if x["k"] in ("copy", "move") and not x["p"] and x["l"] in envs:
+                        ret = (x["l"], b2)
+        if ret is None:
+            return None
+        desc = sub.describe_env(envs, ("local", ret[0]), ret[1])
+        if not (isinstance(desc, tuple) and desc and desc[0] == "local"):
+            return None
+        def flat(d):
+            # an environment moved through intermediate locals: merge the chain into one description
+            _, bs, i, o = d
+            bases, ins, obj = [], list(i), bool(o)
+            for b in bs:
+                if isinstance(b, tuple) and b and b[0] == "local":
+                    b2, i2, o2 = flat(b)
+                    bases.extend(b2)
+                    ins.extend(i2)
+                    obj = obj or o2
+                else:
+                    bases.append(b)
+            return bases, ins, obj
+        bases, ins, obj = flat(desc)
+        # translate: the helper's own `inherit` base is the environment argument of this call; `argN` heads of binder paths are
+        # the AST operands of this call
+        envargs = [x for x in t["xs"] if "t" in x and "Env" in self.body.ty(x["t"])["s"]]
+        base_root = self.env_root(envargs[0]) if envargs else None
+        ins2 = []
+        for how, path in ins:
+            path = tuple(path)
+            if path and isinstance(path[0], str) and path[0].startswith("arg") and path[0][3:].isdigit():
+                i = int(path[0][3:])
+                if 1 <= i <= len(t["xs"]):
+                    path = tuple(self.ast_path(t["xs"][i - 1])) + path[1:]
+            ins2.append((how, path))
+        return (tuple(sorted(map(str, bases))) == ("('inherit',)",), base_root, tuple(sorted(ins2)), obj)
 
     def _call_behind(self, op, depth=0):
         if op["k"] not in ("copy", "move") or depth > 6:
@@ -206,13 +279,30 @@ class FnEnvFlow:
         if e is None:
             return ("?",)
         base = []
+        extra_ins = []
+        extra_obj = False
         for c in sorted(e["created"], key=str):
             if c[0] == "clone":
                 base.append(self.describe_env(envs, c[1], c[2]) if c[1] and c[1][0] != "param" else ("inherit",))
             elif c[0] == "result-of":
                 base.append(("comp-result",))
+            elif c[0] == "summary":
+                plain, broot, sins, sobj = c[1]
+                if plain:
+                    base.append(self.describe_env(envs, broot, c[2]) if broot and broot[0] != "param" else ("inherit",))
+                else:
+                    base.append(("helper-env",))
+                extra_ins.extend(sins)
+                extra_obj = extra_obj or bool(sobj)
             elif c[0] == "move":
-                base.append(self.describe_env(envs, c[1], c[2]))
+                d = self.describe_env(envs, c[1], c[2])
+                if isinstance(d, tuple) and d and d[0] == "local" and len(d) == 4:
+                    # the same environment under another local: merge instead of nesting
+                    base.extend(d[1])
+                    extra_ins.extend(d[2])
+                    extra_obj = extra_obj or bool(d[3])
+                else:
+                    base.append(d)
             else:
                 base.append((c[0],))
         ins = set()
@@ -230,7 +320,8 @@ class FnEnvFlow:
                     ins.add(("all", path))
                 else:
                     ins.add(("maybe", path))
-        obj = any(v == 1 and bb in self.dom.get(call_bb, ()) for bb, v in e["is_obj"])
+        obj = any(v == 1 and bb in self.dom.get(call_bb, ()) for bb, v in e["is_obj"]) or extra_obj
+        ins |= set(extra_ins)
         return ("local", tuple(sorted(set(base))), tuple(sorted(ins)), "obj" if obj else "")
 
     def rows(self, depth=0):
